@@ -43,7 +43,15 @@ func installSQLSeam() {
 // statement that is about to run instead of executing it.
 var sqlFault error
 
+// sqlFaultsOn is set before a run starts and only read while it runs (the CONC
+// engine, where several goroutines execute statements, never injects SQL faults
+// and must not share a mutable variable between tasks).
+var sqlFaultsOn bool
+
 func takeSQLFault() error {
+	if !sqlFaultsOn {
+		return nil
+	}
 	err := sqlFault
 	sqlFault = nil
 	return err
